@@ -24,28 +24,36 @@ TECHNIQUE = (
 )
 LEVEL_TEXT = (
     "proof (partial): the quoting decision and escaping of the path completer (_quote_paths, _quote_to_use, _raw_quote, the `~` "
-    "special case, the opened-quote detection) and xonsh's reading of a subprocess argument (string scanning, simple escapes, raw "
-    "strings, expand_path = $VAR + tilde rule, bare words, the `!` macro) are modelled over character lists; _PATTERN's class and "
-    "keywords, _CONTROL_CHAR_ESCAPE, name_needs_quotes, _quote_to_use and _raw_quote are TRANSLATED from /repo on every run. "
-    "Theorem C18_roundtrip_partial: for ALL names, all seven opening styles x cursor positions and files/directories, every text "
-    "the model completer offers reads back as exactly [name] — under the exact decidable guard `classify = []`; the unrestricted "
-    "statement is false on the unchanged code: one `_cex` theorem and one open known finding per excluded class (trailing "
-    "backslash, unquoted `!`, raw string + its own quote, control char + $VAR, tilde after `=`/`:`/~user, trailing space, "
-    "unescaped line separators, opened raw string + control char, triple-quote endings, cursor inside a closed triple quote / a "
-    "lone quote, odd name tokens, Python statements). Tie: real files with nasty names in scratch directories, the real "
-    "Completer.complete pipeline for empty and typed prefixes in every opening style, completion spliced and executed through "
-    "the real Execer; recorded argv vs the name on disk (oracle) and vs the model (correspondence). "
-    "Analyser clause (CompletionContextParser.parse never raises; prefix/suffix reproduce the text around the cursor): TIED, NOT "
-    "PROVED — the reconstruction predicate is stated in Lean and evaluated by the driver on the real analyser's output for "
-    "generated lines x every cursor position."
+    "special case, the opened-quote detection) and xonsh's reading of a subprocess argument (string scanning incl. the triple-quote "
+    "look-ahead, one-letter escapes, raw strings, expand_path = $VAR + tilde rule, bare words, the `!` macro) are modelled over "
+    "character lists; _PATTERN's class and keywords, _CONTROL_CHAR_ESCAPE, name_needs_quotes, _quote_to_use and _raw_quote are "
+    "TRANSLATED from /repo on every run. Theorem C18_roundtrip_partial (instantiated for the translated tables: C18_roundtrip_gen): "
+    "for ALL non-empty names, the seven opening styles ('' ' \" r' r\" ''' \"\"\") x cursor positions x typed-or-not, files and "
+    "directories, every text the model completer offers reads back as exactly [name] — under the exact decidable guard "
+    "`classify = []`. The unrestricted statement is false on the unchanged code: one `_cex` theorem and one open known finding per "
+    "excluded class (trailing backslash, unquoted `!`, raw string + its own quote, control char + $VAR, tilde after `=`/`:`/~user, "
+    "trailing space, unescaped line separators, opened raw string + control char, triple-quote endings, cursor inside a closed "
+    "triple quote / a lone quote / next to the `~` entry, odd name tokens, Python statements). Two classes carry a model VARIANT "
+    "that is probed from the implementation on every run and proved both ways: the closing-quote test (repaired in /repo 6047536) and "
+    "the escape table covering all str.splitlines() boundaries (repaired in 00e7ff2; for that variant the proof covers the names "
+    "without those six characters, the rest is tied by execution); their witnesses are replayed as FIXED witnesses. Tie: real files with nasty names in "
+    "scratch directories, the real Completer.complete pipeline for empty and typed prefixes in every opening style (plus R' p' pr' "
+    "rp' r''' spellings), completion spliced and executed through the real Execer; recorded argv vs the name on disk (oracle) and vs "
+    "the model (correspondence). Analyser clause (CompletionContextParser.parse never raises; prefix/suffix reproduce the text "
+    "around the cursor): TIED, NOT PROVED — the reconstruction predicate is stated in Lean (C18_reconstructs_splits says what it "
+    "buys) and evaluated by the driver on the real analyser's output for generated lines x every cursor position; two open "
+    "findings there (cursor inside a closing triple quote, line continuation inside the word) and one repaired (exception on a "
+    "leading line continuation, b9028ce)."
 )
 LEVEL_NOTE = (
     "Trusted: Lean kernel + standard axioms; translator (regex parse tree -> class + keywords, cross-checked against "
     "_PATTERN.search on every code point; StrLite for three small functions); harness. The reader model is hand-written from "
     "tokenize.py / lexer.py / parsers/base.py / built_ins.expand_path and tied by executing generated literals and bare words; "
-    "escapes other than the one-letter ones, f/b/p-strings and several words per text are outside it (`unmodelled`). The PLY "
-    "completion-context parser is not modelled: its clause is differential testing only. POSIX only (sep = '/'). Names that are "
-    "not valid UTF-8 are exercised but not representable in the model."
+    "escapes other than the one-letter ones, p/f/b/u-strings and several words per text are outside it (`unmodelled`, counted). "
+    "The PLY completion-context parser is not modelled: its clause is differential testing only. POSIX only (sep = '/'). One "
+    "directory entry per scratch directory in the modelled stream (a several-entries stream checks reachability without the `~` "
+    "entry). Candidate SELECTION (globbing of the typed prefix, $VAR / ~ expansion in it) is not part of the property. Names that "
+    "are not valid UTF-8 are exercised but not representable in the model; f'/b'/u' openings are not exercised."
 )
 
 # ------------------------------------------------------------------ session
@@ -111,11 +119,31 @@ class Session:
         self.homes = {p.pw_name: p.pw_dir for p in pwd.getpwall()}
         self.homes[""] = self.home
         self._rw = re.compile(r"\w")
+        self.whole_quote = self.probe_whole_quote()
+        # the other model variant: does the escape table cover the six remaining str.splitlines() boundaries (Lean `unescapedBreaks`)?
+        self.sep_escaped = all(ord(c) in dict(xcp._CONTROL_CHAR_ESCAPE) for c in "\x1c\x1d\x1e\x85\u2028\u2029")
         self.hdr = [
             [c for c in range(128) if cq._PATTERN.search(chr(c))],
             [codes(k) for k in keywords_of(cq._PATTERN)],
             [[int(k), codes(v)] for k, v in sorted(dict(xcp._CONTROL_CHAR_ESCAPE).items())],
         ]
+
+    def probe_whole_quote(self):
+        """which variant of the model matches the implementation: does `_complete_path_raw` recognise a closing TRIPLE quote
+        right after the cursor (repaired: the whole quote is compared) or not (unchanged: one character is compared)?"""
+        d = os.path.join(self.root, "probe")
+        os.mkdir(d)
+        here = os.getcwd()
+        try:
+            os.chdir(d)
+            open("ab", "w").close()
+            paths, _ = self.xcp._complete_path_raw("'''a", "'''a'''", 0, 4, {})
+            return not any(str(p).rstrip().endswith("'''") for p in paths)
+        except Exception:  # noqa: BLE001
+            return False
+        finally:
+            os.chdir(here)
+            shutil.rmtree(d, ignore_errors=True)
 
     # -- the model's view of the characters / environment at hand
     def extra(self, *strings):
@@ -266,7 +294,7 @@ def sx_mode(m):
 
 def model_complete(ctx, S, name, o, typed_empty, mode, is_dir):
     texts, reads, classes, seen = ctx.driver.call(
-        "c18.complete", S.hdr, S.extra(name), S.vars_for(name), S.homes_for(name), codes(name), codes(o), bool(typed_empty), sx_mode(mode), bool(is_dir)
+        "c18.complete", S.hdr, S.extra(name), S.vars_for(name), S.homes_for(name), bool(S.whole_quote), bool(S.sep_escaped), codes(name), codes(o), bool(typed_empty), sx_mode(mode), bool(is_dir)
     )
     return [uncodes(t) for t in texts], [dec_read(r) for r in reads], [str(c) for c in classes], (uncodes(seen[0]), uncodes(seen[1]), seen[2])
 
@@ -321,7 +349,7 @@ def has_surrogate(s):
     return any(0xD800 <= ord(c) <= 0xDFFF for c in s)
 
 
-def run_case(ctx, S, stream, name, o, mode, is_dir, prefix=None, rng=None, known_key_only=None):
+def run_case(ctx, S, stream, name, o, mode, is_dir, prefix=None, rng=None, known_key_only=None, force_key=None):
     """create the entry, complete, splice, execute, compare.  Returns a summary dict (used by replays)."""
     d = make_entry(S, name, is_dir)
     if d is None:
@@ -405,6 +433,8 @@ def run_case(ctx, S, stream, name, o, mode, is_dir, prefix=None, rng=None, known
                     key = pick_key(classes, text, got)
             if known_key_only is not None and key != known_key_only:
                 key = None
+            if force_key is not None:
+                key = force_key  # the witness of a FIXED finding fails again: reported under that (no longer open) key
             keys.append(key)
             ctx.spec_failure(case | {"completion": text, "prefix_len": pl, "executed": line, "classes": classes},
                              {"argv": got, "expected": [want[0]]},
@@ -436,8 +466,9 @@ def stream_names(ctx, n_random, single_chars, name="names"):
         "character of an alphabet (ASCII 1-127 and rare Unicode: line separators, spaces, digits that are not identifier starts, "
         "combining marks, astral) in the positions c / a<c>b / <c>b / a<c>, and random strings over a weighted alphabet of shell "
         "metacharacters, quotes, `$`, backslashes, control characters, keywords, $VAR forms, ~user; for each name every opening "
-        "style ('' ' \" r' r\" ''' \"\"\") x cursor position (at the end / inside closed quotes / after the closing quote) x a typed "
-        "prefix (empty or a true prefix encoded in that style): real Completer.complete -> splice -> real Execer with a recording "
+        "style ('' ' \" r' r\" ''' \"\"\"; further spellings R' p' pr' rp' r''' in both quote kinds are sampled) x cursor position (at the "
+        "end / inside closed quotes / after the closing quote) x a typed prefix (empty or a true prefix encoded in that style): "
+        "real Completer.complete -> splice -> real Execer with a recording "
         "alias; argv vs the name on disk (oracle), completion text and argv vs the Lean model; non-trivial = the name needs "
         "quoting or a quote was opened",
     )
@@ -798,28 +829,36 @@ def stream_analyser(ctx, n, name="analyser"):
 
 # ------------------------------------------------------------------ known findings
 def replay_known(ctx):
+    """open findings: the witness must still fail in the recorded way; fixed findings: the witness must pass — if it fails
+    again the failure is reported under the finding's key, which is no longer open, hence a VIOLATION"""
     S = Session.get()
     for f in ctx.known:
         w = f["witness"]
-        if f.get("status", "open") != "open":
+        status = f.get("status", "open")
+        fixed = status.startswith("fixed")
+        if status != "open" and not fixed:
             continue
         if w.get("kind") == "undecodable":
             continue  # replayed by its stream
+        before = len(ctx.spec_failures)
         if w.get("kind") == "analyser":
-            before = len(ctx.spec_failures)
-            check_analysis(ctx, S, "known-witness", w["text"], w["cursor"])
+            check_analysis(ctx, S, "fixed-witness" if fixed else "known-witness", w["text"], w["cursor"])
             new = ctx.spec_failures[before:]
-            ctx.replayed(f["key"], any(sf["key"] == f["key"] for sf in new), [sf["observed"] for sf in new][:1])
+            if fixed:
+                for sf in new:
+                    sf["key"] = f["key"]
+                ctx.replayed(f["key"], bool(new), {"fixed": status, "observed": [sf["observed"] for sf in new][:1]})
+            else:
+                ctx.replayed(f["key"], any(sf["key"] == f["key"] for sf in new), [sf["observed"] for sf in new][:1])
             continue
         nm = uncodes(w["name"])
-        before = len(ctx.spec_failures)
-        r = run_case(ctx, S, "known-witness", nm, w["opening"], w["mode"], w["is_dir"], prefix=(w.get("typed_prefix", ""), w.get("typed", "")), known_key_only=f["key"])
+        r = run_case(ctx, S, "fixed-witness" if fixed else "known-witness", nm, w["opening"], w["mode"], w["is_dir"], prefix=(w.get("typed_prefix", ""), w.get("typed", "")),
+                     known_key_only=None if fixed else f["key"], force_key=f["key"] if fixed else None)
         new = ctx.spec_failures[before:]
-        still = bool(r and r["failed"] and f["key"] in r["keys"])
-        ctx.replayed(f["key"], still, [sf["observed"] for sf in new][:1])
-        if not still:
-            # the witness no longer fails in the recorded way: drop what it reported under other keys
-            pass
+        if fixed:
+            ctx.replayed(f["key"], bool(r and r["failed"]), {"fixed": status, "observed": [sf["observed"] for sf in new][:1]})
+        else:
+            ctx.replayed(f["key"], bool(r and r["failed"] and f["key"] in r["keys"]), [sf["observed"] for sf in new][:1])
 
 
 # ------------------------------------------------------------------ entry points
@@ -845,6 +884,9 @@ def run(ctx):
         "completer and executes the completed line."
     )
     try:
+        # the model variant that matches the implementation (DESIGN §3): the closing-quote test of _complete_path_raw
+        ctx.extra["model_variant"] = {"whole_closing_quote_test (repaired in 6047536)": bool(Session.get().whole_quote),
+                                      "escape_table_covers_all_line_boundaries (repaired in 00e7ff2)": bool(Session.get().sep_escaped)}
         replay_known(ctx)
         stream_names(ctx, ctx.n(350, 12000), ctx.n(80, None))
         stream_separators(ctx, ctx.n(80, 1500))
